@@ -1223,9 +1223,13 @@ val skipnN : n -> 'a1 list -> 'a1 list
 
 val name_eqb : name -> name -> bool
 
+val name_ltb : name -> name -> bool
+
 val has_cond : name list -> name -> bool
 
 val remove_cond : name list -> name -> name list
+
+val insert_cond : name list -> name -> name list
 
 val set_cond : name list -> name -> bool -> name list
 
@@ -1373,6 +1377,13 @@ val step : ucd_table -> callbacks -> sinstr list -> mstate -> result
 val init_state :
   n list -> n list list -> bool -> name list -> symtab -> mstate
 
+val init_state_with :
+  n list -> n list list -> bool -> bool -> name list -> symtab -> mstate
+
+val reset_state : mstate -> mstate
+
+val enqueue : n list -> mstate -> mstate
+
 type tr_item =
 | TrAct of n
 | TrCap of n * n * n
@@ -1394,6 +1405,38 @@ val rep_eval : (n -> out option) -> nat -> nat -> n -> out option
 val peg_eval :
   ucd_table -> n list -> (nat -> pexp option) -> nat -> pexp -> n -> out
   option
+
+type oute =
+| SuccE of n * tr_item list * n * symtab
+| FailE of n * symtab
+
+val lit_at : n list -> n list -> n -> n option
+
+val sym_all : n list -> n list list -> n -> n option
+
+val sym_any : n list -> n list list -> n -> n option
+
+val sym_match : n list -> symk -> n list list -> n -> n -> n option
+
+val scope_enter : n -> name -> symtab -> symtab
+
+val fragE : pexp -> bool
+
+val repE_eval :
+  (n -> symtab -> oute option) -> nat -> nat -> n -> symtab -> oute option
+
+val pegE_eval :
+  ucd_table -> n list -> (nat -> pexp option) -> nat -> name list -> pexp ->
+  n -> symtab -> oute option
+
+val restore : symtab -> oute option -> oute option
+
+val repP_eval :
+  (n -> symtab -> oute option) -> nat -> nat -> n -> symtab -> oute option
+
+val pegP_eval :
+  ucd_table -> n list -> (nat -> pexp option) -> nat -> name list -> pexp ->
+  n -> symtab -> oute option
 
 val link_layout : ucd_table -> expr -> rtable -> nat -> (pexp * lstate) err
 
